@@ -111,4 +111,8 @@ the program text only (package R60d; with an instruction behind a `ret` the mach
 R60-defect-2) -/
 def StraightLineLdRet (app : App) : Bool := app.instrs.dropLast.all ldInstr && app.instrs.all ldrInstr
 
+/-- **straight-line programs with memory reads and `ret`** (anywhere: the run ends at the first one; true of the machine since
+/repo's fix of R60-defect-2 — the decode unit stops at a `ret`) -/
+def StraightLineLdR (app : App) : Bool := app.instrs.all ldrInstr
+
 end Model.Mvp60
